@@ -120,6 +120,52 @@ Theorem C03_sizes_in_range_partial : forall s L d lo hi,
 Proof. exact sizes_in_range_partial. Qed.
 Print Assumptions C03_sizes_in_range_partial.
 
+(* the same for the arrays themselves, for ALL non-negative bounds (0/0, 0/n, n/n included): whatever size n the
+   foreign generator returns for a planned request (contract: n lies in the request), minItems <= n <= maxItems *)
+Theorem C03_positive_array_sizes_valid_partial : forall s L d lo hi n,
+  range_ok (a_min s) (a_max s) = true ->
+  arr_size_valid s L = true ->
+  In (d, lo, hi) (array_plan s L) -> size_in_request lo hi n = true ->
+  arr_size_valid s n = true.
+Proof. exact positive_array_sizes_valid_partial. Qed.
+Print Assumptions C03_positive_array_sizes_valid_partial.
+
+(* maxItems 0, minItems absent or an explicit 0: only the (empty) template is planned *)
+Theorem C03_sizes_max_zero_only_template : forall s,
+  a_max s = Some 0 -> (a_min s = None \/ a_min s = Some 0) -> a_authored s = false ->
+  array_plan s 0 = [(AValid, Some 0, Some 0)].
+Proof. exact sizes_max_zero_only_template. Qed.
+Print Assumptions C03_sizes_max_zero_only_template.
+
+(* non-vacuity at the zero / equal bounds: minItems 0 maxItems 0 satisfies the hypotheses; 0/1, 2/2, 0/absent *)
+Theorem C03_sizes_zero_bounds_examples : exists s s',
+  a_min s = Some 0 /\ a_max s = Some 0 /\ a_min s' = None /\ a_max s' = Some 0 /\
+  range_ok (a_min s) (a_max s) = true /\ arr_size_valid s 0 = true /\
+  array_plan s 0 = [(AValid, Some 0, Some 0)] /\
+  array_plan s' 0 = [(AValid, Some 0, Some 0)] /\
+  array_plan {| a_min := Some 0; a_max := Some 1; a_authored := false |} 0 = [(AValid, Some 0, Some 0); (ANear, Some 1, Some 1)] /\
+  array_plan {| a_min := Some 2; a_max := Some 2; a_authored := false |} 2 = [(AValid, Some 2, Some 2)] /\
+  array_plan {| a_min := Some 0; a_max := None; a_authored := false |} 0 = [(AValid, Some 0, Some 0); (ANear, Some 1, Some 1)].
+Proof. exists w_arr_zero, w_arr_zero_nomin. exact sizes_max_zero_examples. Qed.
+Print Assumptions C03_sizes_zero_bounds_examples.
+
+(* regression sentinel (seed C03_c): the planner with the truthiness guard "not max_items or larger <= max_items"
+   requests a one-item array for minItems 0 / maxItems 0 (inside the hypotheses of the theorem above), which is
+   outside the declared bounds; the code as it is (max_items is None) plans the template only; the two planners
+   differ on maxItems 0 only *)
+Theorem C03_array_falsy_max_guard_refuted : exists s L d lo hi n,
+  In (d, lo, hi) (array_plan_falsy_max s L)
+  /\ range_ok (a_min s) (a_max s) = true /\ arr_size_valid s L = true
+  /\ size_in_request lo hi n = true /\ arr_size_valid s n = false
+  /\ array_plan s L = [(AValid, Some 0, Some 0)].
+Proof. exists w_arr_zero, 0, ANear, (Some 1), (Some 1), 1. exact array_falsy_max_guard_refuted. Qed.
+Print Assumptions C03_array_falsy_max_guard_refuted.
+
+Theorem C03_array_falsy_max_guard_differs_only_at_zero : forall s L,
+  a_max s <> Some 0 -> array_plan_falsy_max s L = array_plan s L.
+Proof. exact array_falsy_max_guard_differs_only_at_zero. Qed.
+Print Assumptions C03_array_falsy_max_guard_differs_only_at_zero.
+
 Theorem C03_sizes_in_range_refuted : exists s L d lo hi,
   In (d, lo, hi) (array_plan s L) /\ within (a_min s) (a_max s) lo hi = false.
 Proof. exists w_arr, 3, AMaximum, (Some 1), (Some 1). exact sizes_in_range_refuted. Qed.
@@ -199,6 +245,42 @@ Theorem C03_anyof_negative_refuted : exists bs i v d k,
   In (i, (Some v, d, k)) (anyof_negative_numbers bs []) /\ existsb (fun b => conforms b v) bs = true.
 Proof. exists [[KMinimum 5]; [KMaximum 10]], O, (PInt 4), NSmaller, (KMinimum 5). exact anyof_negative_refuted. Qed.
 Print Assumptions C03_anyof_negative_refuted.
+
+(* ---- positive values under anyOf / oneOf over numeric branches (each branch planned on its own, siblings not
+   consulted): when every branch is inside the regions of the positive-number theorem, a non-authored value conforms
+   to its own branch, hence to the anyOf; under oneOf it conforms when no sibling accepts it as well ---- *)
+Theorem C03_anyof_positive_partial : forall bs ok i v d,
+  forallb branch_in_regions bs = true ->
+  In (i, (Some v, d)) (combined_positive_numbers bs ok) -> authored d = false ->
+  anyof_valid bs v = true.
+Proof. exact anyof_positive_partial. Qed.
+Print Assumptions C03_anyof_positive_partial.
+
+Theorem C03_oneof_positive_partial : forall bs ok i v d,
+  forallb branch_in_regions bs = true ->
+  In (i, (Some v, d)) (combined_positive_numbers bs ok) -> authored d = false ->
+  others_reject bs i v = true ->
+  oneof_valid bs v = true.
+Proof. exact oneof_positive_partial. Qed.
+Print Assumptions C03_oneof_positive_partial.
+
+(* F10: ... and the hypothesis is needed: oneOf [minimum -5, maximum 0] [maximum -3] yields -5 as the positive
+   Minimum value of the first branch although it conforms to both branches, i.e. not to the oneOf *)
+Theorem C03_oneof_positive_refuted : exists bs i v d,
+  In (i, (Some v, d)) (combined_positive_numbers bs true) /\ authored d = false
+  /\ forallb branch_in_regions bs = true /\ oneof_valid bs v = false /\ anyof_valid bs v = true.
+Proof. exists w_oneof, O, (-5), DMinimum. exact oneof_positive_refuted. Qed.
+Print Assumptions C03_oneof_positive_refuted.
+
+Theorem C03_oneof_positive_hypotheses_satisfiable : exists bs,
+  forallb branch_in_regions bs = true /\
+  combined_positive_numbers bs true =
+    [(O, (Some 1, DMinimum)); (O, (Some 2, DNear)); (O, (Some 3, DMaximum));
+     (1%nat, (Some 7, DMinimum)); (1%nat, (Some 8, DNear)); (1%nat, (Some 9, DMaximum))] /\
+  forallb (fun x => match snd x with (Some v, _) => others_reject bs (fst x) v | _ => true end)
+          (combined_positive_numbers bs true) = true.
+Proof. exists w_oneof_ok. exact oneof_positive_nonvacuous. Qed.
+Print Assumptions C03_oneof_positive_hypotheses_satisfiable.
 
 (* ---- object / array wrappers (_negative_properties, _negative_pattern_properties, _negative_items,
    _negative_required, additionalProperties: false), for every context, every key order and all
